@@ -334,6 +334,52 @@ func runAsIs(d descriptor) *drive.ScriptOutcome {
 	return drive.RunScript(c)
 }
 
+// hostCancelled: "non-interrupting adds" - as long as no event of an
+// INTERRUPTING boundary event has been handed to the instance, nothing may
+// announce the cancellation of the host (CancellationFlowNodeTrace naming it),
+// whatever non-interrupting boundary events fired.
+func hostCancelled(d descriptor, out *drive.ScriptOutcome, bt *built) string {
+	interrupting := func(e *model.Ev) bool {
+		if e == nil {
+			return false
+		}
+		for _, b := range d.Bounds {
+			if !b.Interrupt {
+				continue
+			}
+			if b.Def.Kind == "timer" && e.Kind == "timer" {
+				return true
+			}
+			if b.Def.Kind == e.Kind && b.Def.Ref == e.Ref {
+				return true
+			}
+		}
+		return false
+	}
+	var walk func(ss []drive.Stim) bool
+	walk = func(ss []drive.Stim) bool {
+		for i := range ss {
+			if interrupting(ss[i].Ev) || walk(ss[i].Burst) {
+				return true
+			}
+		}
+		return false
+	}
+	if walk(d.Script) {
+		return ""
+	}
+	n := 0
+	for _, id := range out.NodeCancels {
+		if id == bt.host {
+			n++
+		}
+	}
+	if n > 0 {
+		return fmt.Sprintf("no event of an interrupting boundary event was ever delivered, yet the cancellation of the host %s was announced %d time(s) (CancellationFlowNodeTrace)", bt.host, n)
+	}
+	return ""
+}
+
 // knownMatch: structural predicate AND symptom class.
 func knownMatch(d descriptor, out *drive.ScriptOutcome, bt *built) string {
 	fired := map[string]int{}
@@ -448,7 +494,10 @@ func TestC10Boundary(t *testing.T) {
 		}
 		fails := 0
 		for i := 0; i < 10; i++ {
-			out, _ := run(rd)
+			out, bt := run(rd)
+			if msg := hostCancelled(rd, out, bt); msg != "" {
+				out.Symptom, out.Detail = "host-cancelled", msg
+			}
 			if out.Symptom != "" {
 				fails++
 				if fails == 1 {
@@ -471,13 +520,21 @@ func TestC10Boundary(t *testing.T) {
 			rec.Inconclusive("TestC10Boundary", out.Inconcl)
 			rt.Fatalf("inconclusive: %s", out.Inconcl)
 		}
+		if msg := hostCancelled(d, out, bt); msg != "" {
+			// (an observable of its own: judged whatever else the run shows,
+			// also when the rest is a listed finding)
+			if out.Symptom != "" {
+				msg += " | besides: " + out.Symptom + ": " + out.Detail
+			}
+			out.Symptom, out.Detail = "host-cancelled", msg
+		}
 		rec.End(hash, out.Symptom)
 		cls, nt := classify(d, out)
 		rec.Case("TestC10Boundary", hash, nt, cls, map[string]any{"case": d, "steps": out.Steps})
 		if out.Symptom == "" {
 			return
 		}
-		if rec.Unrestricted() {
+		if rec.Unrestricted() && out.Symptom != "host-cancelled" {
 			if k := knownMatch(d, out, bt); k != "" {
 				// structural predicate and symptom class match a listed finding:
 				// it is that finding only if the engine does exactly what the
